@@ -13,6 +13,13 @@ r = subprocess.run(["git", "-C", "/repo", "apply", patch], capture_output=True, 
 if r.returncode != 0:
     print("APPLY-FAILED", r.stderr[:300])
     sys.exit(2)
+# the evidence files describe the unchanged tree: keep them across this experiment
+import shutil
+saved = {}
+for p in props:
+    ev = "/verif/evidence/%s.json" % p
+    if os.path.exists(ev):
+        saved[ev] = open(ev, "rb").read()
 try:
     for p in props:
         tier = os.environ.get("SEED_TIER", "quick")
@@ -22,6 +29,8 @@ try:
         print("%s exit=%d %s" % (p, q.returncode, " | ".join(l[:220] for l in lines[:3])))
 finally:
     subprocess.run(["git", "-C", "/repo", "checkout", "--", "."], check=True)
+    for ev, data in saved.items():
+        open(ev, "wb").write(data)
     # regenerate tables and rebuild for the pristine tree so later runs start clean
     subprocess.run(["/venv/bin/python", "/verif/tools/gen_tables.py"], capture_output=True, cwd="/verif",
                    env=dict(os.environ, PYTHONHASHSEED="0"))
